@@ -20,7 +20,7 @@ pub trait TokP: Payload + Send + Sync + PartialEq + PartialOrd + std::hash::Hash
 impl<T: Payload + Send + Sync + PartialEq + PartialOrd + std::hash::Hash + std::fmt::Debug> TokP for T {}
 
 /// boundary-biased lengths
-pub const LENS: [usize; 24] = [0, 1, 2, 3, 4, 5, 7, 8, 9, 15, 16, 17, 31, 32, 33, 63, 64, 65, 127, 128, 129, 255, 256, 300];
+pub const LENS: [usize; 34] = [0, 1, 2, 3, 4, 5, 7, 8, 9, 15, 16, 17, 31, 32, 33, 63, 64, 65, 127, 128, 129, 255, 256, 257, 300, 511, 512, 513, 1023, 1024, 1025, 2047, 2048, 4097];
 
 /// A scriptable iterator: honest or lying `len()` / `size_hint()`, every callback is a fault point.
 pub struct GenIter<T> {
@@ -171,7 +171,8 @@ impl<Hd: TokP, El: TokP> Engine for CtorEngine<Hd, El> {
         let _ = viol::take();
         let ctor = pick(c.p(0), CTORS.len());
         let len = if ctor == 9 || ctor == 11 || ctor == 12 { 1 } else { LENS[pick(c.p(1), LENS.len())] };
-        let spare = pick(c.p(2), 20);
+        // spare capacity: small, about the length, or more than twice the length
+        let spare = match c.p(2) % 4 { 0 => 0, 1 => pick(c.p(2), 20), 2 => len + pick(c.p(2), 9), _ => 2 * len + 1 + pick(c.p(2), 40) };
         let what = format!("{} with {} elements of {} (spare capacity {}, header {})", CTORS[ctor], len, El::tyname(), spare, Hd::tyname());
         let (items, ids) = toks::<El>(len, 1000);
         let (hdr, hid) = {
@@ -373,7 +374,7 @@ impl Engine for CopyCtorEngine {
         8
     }
     fn ops_range(&self) -> (usize, usize) {
-        (0, 40)
+        (0, 160)
     }
     fn run(&self, c: &ByteCase, trace: bool) -> CaseReport {
         let _ = alloc::case_end();
@@ -985,5 +986,170 @@ impl Engine for AllocFailEngine {
         }
         let labels = vec![if nt { "aborted-through-alloc-error-path" } else if k == 0 { "control" } else { "fewer-allocations-than-k" }];
         CaseReport { viols: viol::take(), nontrivial: nt, labels, trace: if trace { vec![format!("{} -> exit {:?} signal {:?} stdout {:?} stderr {:?}", what, o.code, o.signal, o.stdout.trim(), o.stderr.lines().last().unwrap_or(""))] } else { vec![] } }
+    }
+}
+
+// ------------------------------------------------------------------------------------
+// C05: overflow-adjacent lengths (child processes)
+// ------------------------------------------------------------------------------------
+pub const OVF_APIS: [&str; 8] = [
+    "Arc::<[MaybeUninit<u8>]>::new_uninit_slice",
+    "Arc::<[MaybeUninit<u64>]>::new_uninit_slice",
+    "UniqueArc::<[MaybeUninit<[u8;24]>]>::new_uninit_slice",
+    "UniqueArc::from_header_and_uninit_slice::<u64,u16>",
+    "UniqueArc::from_header_and_uninit_slice::<[u8;24],u64>",
+    "Arc::from_header_and_iter with an ExactSizeIterator claiming the length (u64 items)",
+    "ThinArc::from_header_and_iter with an ExactSizeIterator claiming the length (u32 items)",
+    "collect::<Arc<[u64]>>() from an iterator whose exact size_hint claims the length",
+];
+const OVF_SIZES: [u128; 8] = [1, 8, 24, 2, 8, 8, 4, 8];
+const OVF_HDR: [u128; 8] = [0, 0, 0, 8, 24, 8, 16, 0];
+
+struct Claim {
+    claimed: usize,
+    left: usize,
+}
+impl Iterator for Claim {
+    type Item = u64;
+    fn next(&mut self) -> Option<u64> {
+        if self.left == 0 {
+            None
+        } else {
+            self.left -= 1;
+            Some(7)
+        }
+    }
+    fn size_hint(&self) -> (usize, Option<usize>) {
+        (self.claimed, Some(self.claimed))
+    }
+}
+impl ExactSizeIterator for Claim {
+    fn len(&self) -> usize {
+        self.claimed
+    }
+}
+
+pub fn ovf_len(sel: usize, k: usize, size: u128) -> usize {
+    let size = size.max(1) as usize;
+    match sel % 10 {
+        0 => usize::MAX,
+        1 => usize::MAX - k,
+        2 => usize::MAX / size,
+        3 => usize::MAX / size + 1 + k,
+        4 => (usize::MAX / size).saturating_sub(k),
+        5 => isize::MAX as usize / size,
+        6 => isize::MAX as usize / size + 1 + k,
+        7 => (isize::MAX as usize / size).saturating_sub(k + 8),
+        8 => (isize::MAX as usize).wrapping_add(k),
+        _ => (1usize << 40) + k,
+    }
+}
+
+/// `tv child c05ovf <api> <len>`
+pub fn ovf_child_main(api: usize, len: usize) -> ! {
+    use std::io::Write;
+    use std::mem::MaybeUninit;
+    std::panic::set_hook(Box::new(|_| {}));
+    let _ = alloc::set_track(true);
+    let r = catch_unwind(AssertUnwindSafe(|| -> (usize, usize) {
+        // returns (block start, observed slice length) of the handle that was produced
+        match api {
+            0 => {
+                let a = Arc::<[MaybeUninit<u8>]>::new_uninit_slice(len);
+                (a.heap_ptr() as usize, a.len())
+            }
+            1 => {
+                let a = Arc::<[MaybeUninit<u64>]>::new_uninit_slice(len);
+                (a.heap_ptr() as usize, a.len())
+            }
+            2 => {
+                let a = UniqueArc::<[MaybeUninit<[u8; 24]>]>::new_uninit_slice(len).shareable();
+                (a.heap_ptr() as usize, a.len())
+            }
+            3 => {
+                let a = UniqueArc::<HeaderSlice<u64, [MaybeUninit<u16>]>>::from_header_and_uninit_slice(1, len).shareable();
+                (a.heap_ptr() as usize, a.slice.len())
+            }
+            4 => {
+                let a = UniqueArc::<HeaderSlice<[u8; 24], [MaybeUninit<u64>]>>::from_header_and_uninit_slice([0; 24], len).shareable();
+                (a.heap_ptr() as usize, a.slice.len())
+            }
+            5 => {
+                let a = Arc::from_header_and_iter(1u64, Claim { claimed: len, left: 3 });
+                (a.heap_ptr() as usize, a.slice.len())
+            }
+            6 => {
+                let a = ThinArc::from_header_and_iter(1u32, Claim { claimed: len, left: 3 }.map(|x| x as u32));
+                (a.heap_ptr() as usize, a.slice.len())
+            }
+            _ => {
+                let a: Arc<[u64]> = Claim { claimed: len, left: 3 }.collect();
+                (a.heap_ptr() as usize, a.len())
+            }
+        }
+    }));
+    alloc::set_track(false);
+    match r {
+        Ok((heap, n)) => {
+            let bl = alloc::block_at(heap);
+            println!("SURVIVED len={} block_size={}", n, bl.map(|b| b.size as i128).unwrap_or(-1));
+            let _ = std::io::stdout().flush();
+            unsafe { libc::_exit(0) }
+        }
+        Err(_) => {
+            println!("CAUGHT");
+            let _ = std::io::stdout().flush();
+            unsafe { libc::_exit(3) }
+        }
+    }
+}
+
+pub struct OverflowEngine;
+impl Engine for OverflowEngine {
+    fn name(&self) -> String {
+        "overflow-children".into()
+    }
+    fn params_len(&self) -> usize {
+        3
+    }
+    fn ops_range(&self) -> (usize, usize) {
+        (0, 0)
+    }
+    fn run(&self, c: &ByteCase, trace: bool) -> CaseReport {
+        let _ = viol::take();
+        let api = pick(c.p(0), OVF_APIS.len());
+        let len = ovf_len(c.p(1) as usize, (c.p(2) % 5) as usize, OVF_SIZES[api]);
+        let o = child::run_self(&["child".into(), "c05ovf".into(), api.to_string(), len.to_string()], &[], Duration::from_secs(20));
+        let what = format!("{} with length {:#x}", OVF_APIS[api], len);
+        let need: u128 = 8 + OVF_HDR[api] + (len as u128) * OVF_SIZES[api];
+        let caught = o.stdout.contains("CAUGHT") && o.code == Some(3);
+        let alloc_err = o.signal == Some(6) && o.stderr.contains("memory allocation of");
+        let mut nt = true;
+        if o.timed_out {
+            viol::report_sig(&["C05"], "O.timeout", format!("ovf:{}:timeout", OVF_APIS[api]), format!("{}: child timed out", what));
+        } else if let Some(l) = o.stdout.lines().find(|l| l.starts_with("SURVIVED")) {
+            let bs: i128 = l.split("block_size=").nth(1).and_then(|x| x.trim().parse().ok()).unwrap_or(-1);
+            let n: u128 = l.split("len=").nth(1).and_then(|x| x.split_whitespace().next()).and_then(|x| x.parse().ok()).unwrap_or(0);
+            let need_real: u128 = 8 + OVF_HDR[api] + n * OVF_SIZES[api];
+            if bs < 0 || (bs as u128) < need_real {
+                viol::report_sig(
+                    &["C05"],
+                    "O.short-block",
+                    format!("ovf:{}:short-block", OVF_APIS[api]),
+                    format!("{}: a handle with {} elements was returned in a block of {} bytes although {} are needed (the size computation overflowed instead of being refused)", what, n, bs, need_real),
+                );
+            }
+            nt = false;
+        } else if !(caught || alloc_err) {
+            viol::report_sig(
+                &["C05"],
+                "O.overflow-outcome",
+                format!("ovf:{}:termination", OVF_APIS[api]),
+                format!("{}: expected a refusal (panic) or the allocation-error abort; got exit {:?} signal {:?} stdout {:?} stderr {:?}", what, o.code, o.signal, o.stdout.trim(), o.stderr.lines().last().unwrap_or("")),
+            );
+        }
+        let _ = need;
+        let labels = vec![if caught { "refused-with-panic" } else if alloc_err { "allocation-error-abort" } else { "other" }];
+        CaseReport { viols: viol::take(), nontrivial: nt, labels, trace: if trace { vec![format!("{} -> exit {:?} signal {:?} stdout {:?}", what, o.code, o.signal, o.stdout.trim())] } else { vec![] } }
     }
 }
